@@ -38,7 +38,9 @@ RULE = ("seeded symmetric distance matrices (n=2..12, small integers so ties are
         "small) through upgma/neighbor_joining, and seeded "
         "rooted trees of any arity (incl. one-child nodes) with dyadic branch lengths and random unicode labels "
         "through to_newick/from_newick (with injected whitespace, with/without distances, plus mutated strings), "
-        "get_distance/distance_to/lowest_common_ancestor, as_binary and copy; op by op against the Lean model. "
+        "get_distance/distance_to/lowest_common_ancestor, as_binary and copy; op by op against the Lean model; "
+        "accessor stream (oracle only): everything a Tree/TreeNode hands out is scribbled over and the tree re-checked "
+        "against a snapshot. "
         "non-trivial = >= 3 leaves or an error branch; distinct = different op lines / oracle payload")
 TRUSTED = ["float32 arithmetic of upgma/nj modelled as exact rational arithmetic (the exact stream is built so that "
            "no rounding occurs; the float stream is judged by the oracle with a tolerance)",
